@@ -459,7 +459,8 @@ impl Host {
                 });
                 match r {
                     Ok((effects, events, done, effects2, events2, live)) => {
-                        for e in effects.into_iter().chain(effects2) {
+                        // effects of nested commands a program drives by hand come through its own channel
+                        for e in effects.into_iter().chain(effects2).chain(crate::build::take_side()) {
                             out.effects.push(obs_eff(&e));
                             handles.push(Some(e));
                         }
@@ -489,8 +490,9 @@ impl Host {
                         }
                     });
                     match r {
-                        Ok((outs, end)) => {
+                        Ok((mut outs, end)) => {
                             *ended = end;
+                            outs.extend(crate::build::take_side().into_iter().map(CommandOutput::Effect));
                             for o in outs {
                                 match o {
                                     CommandOutput::Effect(e) => {
